@@ -112,7 +112,7 @@ class Ctx:
         """Fail closed (exit 2) when a rule enumerated fewer instances than
         confirmed by hand: the matcher no longer sees its subject."""
         got = self.rules.get(rid, {"instances": 0})["instances"]
-        if got < n:
+        if got < n and not self.violations:
             raise AnalysisError(f"rule {rid}: {got} instances enumerated, floor is {n} "
                                 f"(the matcher no longer recognises the anchored constructs)")
 
@@ -202,6 +202,7 @@ def finish(ctx: Ctx) -> int:
 
 
 def run_check(prop: str, tier: str, fn, seed: int = 0) -> int:
+    t0 = time.time()
     try:
         repo = Repo()
         if repo.parse_errors:
@@ -209,6 +210,7 @@ def run_check(prop: str, tier: str, fn, seed: int = 0) -> int:
             # report as analysis error (the tree does not even compile)
             raise AnalysisError(f"syntax errors in working tree: {repo.parse_errors}")
         ctx = Ctx(prop, tier, repo, seed)
+        ctx.t0 = t0
         fn(ctx)
         return finish(ctx)
     except (AnchorMissing, AnalysisError) as e:
